@@ -202,4 +202,6 @@ Definition xstep (g:img) (o:xop) : img * xout :=
   | XSize => (g, XOSize (num g) (maxs g) (used g))
   | XWalk => (g, XOWalk (walk g))
   end.
+Fixpoint xrun (g:img) (os:list xop) : img * list xout :=
+  match os with [] => (g, []) | o :: r => let (g1, x) := xstep g o in let (g2, xs) := xrun g1 r in (g2, x :: xs) end.
 End Harr.
